@@ -88,8 +88,10 @@ Theorem C08_raises_only_on_conflict : forall ft ops c b e,
 Proof. exact reachable_unified_raises. Qed.
 Print Assumptions C08_raises_only_on_conflict.
 
-(* not proved: the if half (every conflict raises); it was false for memberships (finding C08-F1, repaired in /repo
-   together with C05-F1: see C08_membership_conflict_raises below) and is decided per run by the merge oracle *)
+(* not proved: the if half (every conflict raises); it was false for memberships (finding C08-F1; the prov:collection
+   half is repaired in /repo together with C05-F1: see C08_membership_conflict_raises below; memberships that disagree
+   on their member only are still merged: C08_membership_members_united, and re-creating the merged record is outside
+   the model's domain — World.formal_single) and is decided per run by the merge oracle *)
 
 (* merging computes: two entities and an agent on one identifier, an anonymous
    relation; the agent survives (repaired grouping), attribute sets are united *)
